@@ -41,6 +41,12 @@ class SliceV:
     def __init__(self, obj, path, off, ln, cap):
         self.obj, self.path, self.off, self.len, self.cap = obj, tuple(path), off, ln, cap
 
+    def __eq__(self, o):
+        return isinstance(o, SliceV) and (self.obj, self.path) == (o.obj, o.path) and _same(self.off, o.off) and _same(self.len, o.len) and _same(self.cap, o.cap)
+
+    def __hash__(self):
+        return hash((self.obj, self.path))
+
     def __repr__(self):
         return "slice(%s%s,%s,%s,%s)" % (self.obj, list(self.path), self.off, self.len, self.cap)
 
@@ -129,6 +135,8 @@ class State:
         self.pending = {}     # ring atom havocked by the call being applied -> cell key
         self.call_mark = 0
         self.old = None       # entry-state memory of this path (shared by all forks of one entry state)
+        self.resume_cut = None
+        self.alloc_count = {}
 
     def fork(self):
         s = State(self.run)
@@ -148,6 +156,8 @@ class State:
         s.pending = dict(self.pending)
         s.call_mark = self.call_mark
         s.old = self.old
+        s.resume_cut = self.resume_cut
+        s.alloc_count = dict(self.alloc_count)
         return s
 
     def oblige(self, kind, site, goal, descr=""):
@@ -163,9 +173,32 @@ class State:
         for g in conjuncts(f):
             if isinstance(g, tuple) and g and g[0] == "req" and self.pending and self.define_ring(g[1]):
                 continue
+            # not (a < b)  ==  b <= a   (integer comparisons)
+            if isinstance(g, tuple) and g[0] == "not" and isinstance(g[1], tuple) and g[1][0] in ("<", "<=") and isinstance(g[1][1], Poly) and isinstance(g[1][2], Poly):
+                g = ("<=", g[1][2], g[1][1]) if g[1][0] == "<" else ("<", g[1][2], g[1][1])
             self.hyps.append(g)
+            before = None
+            atom = self._single_atom(g)
+            if atom is not None:
+                before = self.bounds.get(atom)
             self.run.note_bound(self, g)
             self.propagate_equality(g)
+            if atom is not None:
+                lo_hi = self.bounds.get(atom)
+                if lo_hi and lo_hi != before and lo_hi[0] is not None and lo_hi[0] == lo_hi[1]:
+                    # the interval collapsed to a point: the variable is that constant from here on
+                    eq = ("=", Poly.atom(atom), Poly.const(lo_hi[0]))
+                    self.hyps.append(eq)
+                    self.propagate_equality(eq)
+
+    def _single_atom(self, g):
+        if isinstance(g, tuple) and g and g[0] in ("<", "<=") and isinstance(g[1], Poly) and isinstance(g[2], Poly):
+            for a, b in ((g[1], g[2]), (g[2], g[1])):
+                if b.is_const() and len(a.t) == 1:
+                    (m, c), = a.t.items()
+                    if len(m) == 1 and c == 1:
+                        return m[0]
+        return None
 
     def truth(self, f):
         """True / False if the formula (or its negation) is literally among the path's hypotheses, else None"""
@@ -297,6 +330,8 @@ class FuncRun:
         self.pre_objs = set()
         self.asm_body = None
         self.cut_seen = set()
+        self.cut_done = {}
+        self.parked = {}
         self.sum_memo = {}
         self.split_ranges = []
         self.lazy_extra = {}
@@ -306,11 +341,22 @@ class FuncRun:
         self.ghyps = []
 
     # ------------------------------------------------------------ objects
-    def new_obj(self, ty, name, origin, lazy=False):
+    def new_obj(self, ty, name, origin, lazy=False, oid=None):
+        if oid is not None:
+            # canonical identity (allocation site + how often the path has executed it): the same allocation
+            # on different paths yields the same object, so that states can be merged at cut points
+            if oid not in self.objs:
+                self.objs[oid] = ObjInfo(oid, ty, name, origin, lazy)
+            return oid
         self.nobj += 1
         oid = "%s#%d" % (name, self.nobj)
         self.objs[oid] = ObjInfo(oid, ty, name, origin, lazy)
         return oid
+
+    def site_oid(self, st, base, site):
+        n = st.alloc_count.get(site, 0) + 1
+        st.alloc_count[site] = n
+        return "%s#%s.%d" % (base, site, n)
 
     def int_info(self, t):
         return self.prog.int_info(t)
@@ -774,15 +820,20 @@ class FuncRun:
             return self.obligations
         work = list(reversed(entry_states))
         self.work = work
-        while work:
-            s = work.pop()
-            if s.old is not None:
-                self.old_mem = s.old
-            try:
-                self.exec_path(s, work)
-            except PathEnd:
-                pass
-            self.paths += 1
+        while True:
+            while work:
+                s = work.pop()
+                if s.old is not None:
+                    self.old_mem = s.old
+                try:
+                    self.exec_path(s, work)
+                except PathEnd:
+                    pass
+                self.paths += 1
+            nxt = self.release_parked()
+            if nxt is None:
+                break
+            work.append(nxt)
         return self.obligations
 
     def contract_env(self, st=None):
@@ -896,46 +947,119 @@ class FuncRun:
         st.loopstack.append({"head": head, "allowed": allowed, "objmark": set(self.objs), "dec": dec})
 
     def at_loop_cut(self, st, k, body, L):
-        """cut point per iteration of a loop whose counter is concrete on every path: the invariant is proved
-        on every arrival; only the first arrival for a given counter value continues (from the havocked state
-        constrained by the invariant), so branches inside the body do not multiply across iterations"""
+        """Cut point per iteration of a loop whose counter is concrete on every path.  Every path that arrives at
+        the loop head proves the invariant and is parked.  When no other path is runnable, the parked paths of one
+        (head, counter) group are merged: hypotheses common to all of them are kept, cells on which they agree
+        are kept, the loop's modified cells are havocked and constrained by the invariant.  Branches inside the
+        body therefore do not multiply across iterations, and nothing path-specific survives the cut."""
         from .ceval import Evaluator
         head = st.block
         env = self.loop_env(st, k)
         ev = Evaluator(self, st, self.old_mem, env, phase="inv")
         cv = ev.conc(ev.ev(("id", L["var"]), False))
         key = (head, cv)
+        if st.resume_cut == key:
+            st.resume_cut = None
+            return   # the merged continuation of this very cut: run the iteration
         for lab, ast, txt in L["invariant"]:
             self.add_named(st, "loop", "loop%d@%s=%s.%s" % (k, L["var"], cv, lab or "inv"), "", ev.bool(ast), txt)
-        if key in self.cut_seen:
+        if key in self.cut_done:
+            # a late arrival: sound only if the merged continuation did not assume anything this path lacks
+            kept = self.cut_done[key]
+            hs = set()
+            for h in st.hyps:
+                try:
+                    hs.add(h)
+                except TypeError:
+                    pass
+            if not all(h in hs for h in kept):
+                raise VerifError("%s: a path reached cut %s of loop %d after the cut had been merged" % (self.fname, cv, k))
             raise PathEnd()
-        self.cut_seen.add(key)
+        self.parked.setdefault(key, []).append((st, k, body))
+        raise PathEnd()
+
+    def release_parked(self):
+        """merge one parked group and return the continuation state (None if nothing is parked)"""
+        from .ceval import Evaluator
+        if not self.parked:
+            return None
+        key = next(iter(self.parked))
+        group = self.parked.pop(key)
+        head, cv = key
+        states = [g[0] for g in group]
+        st0, k, body = group[0]
+        L = self.c.loops[k]
+        st = st0.fork()
+        # hypotheses common to all arrivals, in the order of the first
+        common = None
+        for s_ in states:
+            hs = set()
+            for h in s_.hyps:
+                try:
+                    hs.add(h)
+                except TypeError:
+                    pass
+            common = hs if common is None else (common & hs)
+        st.hyps = [h for h in st0.hyps if _hashable(h) and h in common]
+        st._hs = set()
+        st._hs_len = 0
+        self.cut_done[key] = list(st.hyps)
+        # interval facts and caches that all arrivals share
+        st.bounds = {a: b for a, b in st0.bounds.items() if all(s_.bounds.get(a) == b for s_ in states[1:])}
+        st.cache = {a: b for a, b in st0.cache.items() if all(_same(s_.cache.get(a), b) for s_ in states[1:])}
+        st.loopstack = []
+        st.block, st.prev, st.pc = head, st0.prev, 0
+        env = self.loop_env(st, k)
+        ev = Evaluator(self, st, self.old_mem, env, phase="inv")
         allowed = set()
         for bi in body:
             for ins in self.f["blocks"][bi]["instrs"]:
                 if ins["op"] == "Store" and ins["addr"]["k"] == "reg" and ins["addr"]["n"] in st.localobj:
                     o = st.localobj[ins["addr"]["n"]]
-                    for c in self.cells_under(o, ()):
-                        allowed.add((c[0], c[1]))
+                    if o in self.objs:
+                        for c in self.cells_under(o, ()):
+                            allowed.add((c[0], c[1]))
         for ast in L["modifies"]:
             for c in ev.loc_cells(ast):
                 allowed.add((c[0], c[1]))
-        keep = {}
-        # the counter itself (and other listed `keep` locals) stays concrete
+        keep = set()
         for nm in [L["var"]] + [x for x in str(L["opts"].get("keep", "")).split(",") if x]:
             if nm in st.localname:
                 for c in self.cells_under(st.localname[nm], ()):
-                    keep[(c[0], c[1])] = st.mem.get((c[0], c[1]))
-        for (o, p) in sorted(allowed, key=repr):
-            if (o, p) in keep:
-                continue
-            if (o, p) in st.mem or self.objs[o].lazy:
-                lt = self.loc_type(o, p)
-                st.mem[(o, p)] = self.fresh_value(st, lt, "%s%s@%s" % (self.objs[o].name, self.prog.path_name(self.objs[o].ty, p) if not self.objs[o].lazy else str(list(p)), cv))
+                    keep.add((c[0], c[1]))
+        newmem = {}
+        for ck, v0 in st0.mem.items():
+            same = all(_same(s_.mem.get(ck, _MISSING), v0) for s_ in states[1:])
+            if same and (ck in keep or ck not in allowed):
+                newmem[ck] = v0
+            elif ck in allowed:
+                lt = self.loc_type(ck[0], ck[1])
+                info = self.objs[ck[0]]
+                newmem[ck] = self.fresh_value(st, lt, "%s%s@%s" % (info.name, self.prog.path_name(info.ty, ck[1]) if not info.lazy else str(list(ck[1])), cv))
+            elif self._general_value(ck, states) is not None:
+                # the arrivals differ only because some of them learnt `cell == constant` on their branch
+                newmem[ck] = self._general_value(ck, states)
+            elif ck[0] in self.pre_objs or any(ck in s_.mem for s_ in states[1:]):
+                raise VerifError("%s: loop %d changes %s%s which is not in its `modifies` clause" % (self.fname, k, ck[0], list(ck[1])))
+        st.mem = newmem
         ev = Evaluator(self, st, self.old_mem, self.loop_env(st, k), phase="inv", assume=True)
-        ev.havocked = set(allowed) - set(keep)
+        ev.havocked = set(allowed) - keep
         for lab, ast, txt in L["invariant"]:
             st.assume(ev.bool(ast))
+        st.resume_cut = key
+        return st
+
+    def _general_value(self, ck, states):
+        vals = [s_.mem.get(ck, _MISSING) for s_ in states]
+        if any(v is _MISSING for v in vals):
+            return None
+        gen = [v for v in vals if self.dom.concrete(v) is None] if all(isinstance(v, (Poly, tuple, int)) for v in vals) else None
+        if not gen:
+            return None
+        g0 = gen[0]
+        if all(_same(v, g0) for v in gen):
+            return g0
+        return None
 
     def loop_env(self, st, k):
         env = dict(self.contract_env(st))
@@ -1101,7 +1225,7 @@ class FuncRun:
         site = ins.get("pos", "")
         if op == "Alloc":
             t = prog.elem(ins["type"])
-            o = self.new_obj(t, ins["comment"] or reg, "local" if not ins["heap"] else "alloc")
+            o = self.new_obj(t, ins["comment"] or reg, "local" if not ins["heap"] else "alloc", oid=self.site_oid(st, ins["comment"] or reg, reg))
             self.init_obj_zero(st, o)
             st.regs[reg] = Ptr(o)
             st.localobj[reg] = o
@@ -1181,7 +1305,7 @@ class FuncRun:
             if cl is None:
                 raise Unsupported("make with symbolic length")
             et = prog.elem(ins["type"])
-            o = self.new_obj(et, reg, "alloc", lazy=True)
+            o = self.new_obj(et, reg, "alloc", lazy=True, oid=self.site_oid(st, "make", reg))
             for i in range(cl):
                 for p, lt in prog.leaves(et):
                     st.mem[(o, (i,) + p)] = self.zero_value(st, lt)
@@ -1392,6 +1516,26 @@ class FuncRun:
 
 class PathEnd(Exception):
     pass
+
+
+_MISSING = object()
+
+
+def _hashable(h):
+    try:
+        hash(h)
+        return True
+    except TypeError:
+        return False
+
+
+def _same(a, b):
+    if a is b:
+        return True
+    try:
+        return type(a) is type(b) and a == b
+    except Exception:
+        return False
 
 
 def ring_atoms_of(f):
